@@ -1,17 +1,276 @@
-//! C14 — stub (monitor not written yet)
-use serde_json::Value;
+//! C14 — user-supplied package types: call protocol and post-hook validation.
+//!
+//! Online trace-specification checker over the events that the harness-side shapes append to a
+//! thread-local log (`parse: ε | Conv(err) | Conv(ok) [Finish]`, `build: Finish`), plus the
+//! value model `post(edit(seen))`.
 
-use super::Fail;
-use crate::obs::{Ctx, Tier};
+use purl::GenericPurlBuilder;
+use serde_json::{json, Value};
 
-pub const RULE: &str = "";
+use super::{str_field, Fail};
+use crate::gen;
+use crate::hist::U_VALUES;
+use crate::model::type_chars_ok;
+use crate::obs::{self, Ctx, Out, Snap, Tier};
+use crate::rng::fnv;
+use crate::shapes::{self, model_edit, model_post, Cfg, Event, Shape};
+use crate::shrink::shrink_str;
+use crate::spell;
 
-pub fn requirements(_tier: Tier) -> Vec<(&'static str, u64)> {
-    vec![("not-implemented", 1)]
+pub const RULE: &str = "a case is (member of the shape family, input string or builder name, entry point); non-trivial = the conversion or the hook was actually invoked; distinct by hash of (member, input, entry point)";
+
+pub fn requirements(tier: Tier) -> Vec<(&'static str, u64)> {
+    let q = tier == Tier::Quick;
+    vec![
+        ("members-exercised", 3_072),
+        ("runs:parser", if q { 50_000 } else { 1_000_000 }),
+        ("runs:builder", if q { 20_000 } else { 300_000 }),
+        ("trace:conversion-failed", 1_000),
+        ("trace:hook-failed", 1_000),
+        ("trace:conversion-not-reached", 1_000),
+        ("trace:hook-not-reached-after-conversion", 100),
+        ("result:value-matches-post-edit-seen", 5_000),
+        ("result:post-check-refused", 1_000),
+        ("set:trace-words", 6),
+    ]
 }
 
-pub fn run(_ctx: &mut Ctx) {}
+/// The type substring of `s`, located independently (None when the parser may not get as far).
+fn type_substring(s: &str) -> Option<&str> {
+    let r = s.strip_prefix("pkg:")?.trim_start_matches('/');
+    let r = match r.rfind('#') {
+        Some(i) => &r[..i],
+        None => r,
+    };
+    let path = match r.rfind('?') {
+        Some(i) => &r[..i],
+        None => r,
+    };
+    let i = path.find('/')?;
+    Some(&path[..i])
+}
 
-pub fn replay(_monitor: &str, _case: &Value) -> Result<Option<Fail>, String> {
-    Err("not implemented".into())
+pub struct Judged {
+    pub word: String,
+    pub invoked: bool,
+    pub value_checked: bool,
+    pub post_refused: bool,
+}
+
+pub fn judge(cfg: &Cfg, input: &str, via_parser: bool) -> (Option<Judged>, Option<Fail>) {
+    shapes::set_cfg(cfg);
+    let out = if via_parser {
+        obs::parse::<Shape>(input)
+    } else {
+        obs::build(GenericPurlBuilder::new(Shape::new(cfg, "Custom"), input).with_namespace("ns0").with_version("v0"))
+    };
+    let log = shapes::take_log();
+    let word: Vec<String> = log
+        .iter()
+        .map(|e| match e {
+            Event::Conv { ok, .. } => format!("Conv({})", if *ok { "ok" } else { "err" }),
+            Event::Finish { ok, .. } => format!("Finish({})", if *ok { "ok" } else { "err" }),
+        })
+        .collect();
+    let outcome = match &out {
+        Out::Ok(_) => "Ok".to_string(),
+        Out::Err(e) => format!("Err({})", e.split('(').next().unwrap_or("")),
+        Out::Panic(_) => "PANIC".to_string(),
+    };
+    let word = format!("{}:[{}]->{}", if via_parser { "parse" } else { "build" }, word.join(","), outcome);
+    if let Out::Panic(m) = &out {
+        return (None, Some(Fail::tagged("panicked", m.clone(), format!("member {cfg:?}, input {input:?}: {m}"))));
+    }
+    let fail = |kind: &str, tag: &str, d: String| (None, Some(Fail::tagged(kind, tag.to_string(), format!("member {cfg:?}, input {input:?}, trace {word}: {d}"))));
+    // --- trace specification
+    let convs: Vec<(&String, bool)> = log.iter().filter_map(|e| if let Event::Conv { arg, ok } = e { Some((arg, *ok)) } else { None }).collect();
+    let fins: Vec<(&shapes::PartsSnap, bool)> = log.iter().filter_map(|e| if let Event::Finish { seen, ok } = e { Some((seen, *ok)) } else { None }).collect();
+    if via_parser {
+        if convs.len() > 1 {
+            return fail("protocol", "conversion-more-than-once", format!("conversion invoked {} times", convs.len()));
+        }
+        if fins.len() > 1 {
+            return fail("protocol", "hook-more-than-once", format!("hook invoked {} times", fins.len()));
+        }
+        if !fins.is_empty() && (convs.is_empty() || !convs[0].1 || !matches!(log[0], Event::Conv { .. })) {
+            return fail("protocol", "hook-before-or-without-conversion", "hook invoked although the conversion had not succeeded before".into());
+        }
+        if let Some((arg, _)) = convs.first() {
+            if !type_chars_ok(arg) {
+                return fail("protocol", "conversion-got-invalid-type", format!("conversion invoked with {arg:?}, not a syntactically valid type"));
+            }
+            if type_substring(input) != Some(arg.as_str()) {
+                return fail("protocol", "conversion-arg-not-as-written", format!("conversion invoked with {arg:?}; the type substring of the input is {:?}", type_substring(input)));
+            }
+        }
+    } else {
+        if !convs.is_empty() {
+            return fail("protocol", "conversion-on-build", "build() invoked the string conversion".into());
+        }
+        if fins.len() != 1 {
+            return fail("protocol", "hook-not-exactly-once", format!("build() invoked the hook {} times", fins.len()));
+        }
+    }
+    // --- results
+    let mut j = Judged { word: word.clone(), invoked: !log.is_empty(), value_checked: false, post_refused: false };
+    if let Some((_, false)) = convs.first() {
+        return match &out {
+            Out::Err(e) if *e == format!("Conv({})", cfg.id) => (Some(j), None),
+            o => fail("error-not-returned-unchanged", "conversion", format!("conversion failed with Conv({}) but the result is {}", cfg.id, o.kind())),
+        };
+    }
+    match fins.first() {
+        Some((_, false)) => match &out {
+            Out::Err(e) if *e == format!("Hook({})", cfg.id) => (Some(j), None),
+            o => fail("error-not-returned-unchanged", "hook", format!("hook failed with Hook({}) but the result is {}", cfg.id, o.kind())),
+        },
+        Some((seen, true)) => {
+            let want = model_post(&model_edit(cfg, seen));
+            match (&out, want) {
+                (Out::Err(e), Err(w)) => {
+                    j.post_refused = true;
+                    if *e == w {
+                        (Some(j), None)
+                    } else {
+                        fail("post-check-wrong-error", &w, format!("after the hook the generic checks must answer {w}, got {e}"))
+                    }
+                },
+                (Out::Ok(p), Err(w)) => fail("post-check-skipped", &w, format!("after the hook the generic checks must answer {w}, but a PURL was produced: {:?}", Snap::of(p))),
+                (Out::Err(e), Ok(_)) => fail("valid-result-refused", e, format!("hook succeeded and left valid parts, but the result is Err({e})")),
+                (Out::Ok(p), Ok(w)) => {
+                    j.value_checked = true;
+                    let snap = Snap::of(p);
+                    let opt = |s: &String| if s.is_empty() { None } else { Some(s.clone()) };
+                    let want_snap = Snap { ty: snap.ty.clone(), ns: opt(&w.ns), name: w.name.clone(), ver: opt(&w.ver), quals: w.quals.clone(), sub: opt(&w.sub) };
+                    if let Some(field) = want_snap.diff(&snap) {
+                        return fail("value-differs-from-hook-output", field, format!("the hook saw {seen:?} and rewrote it; expected {want_snap:?}, the PURL reports {snap:?}"));
+                    }
+                    let want_ty = match cfg.type_mode {
+                        0 => Some(fins_type(via_parser, input).to_ascii_lowercase()),
+                        1 => Some(fins_type(via_parser, input).to_ascii_uppercase()),
+                        _ => None,
+                    };
+                    if let Some(t) = want_ty {
+                        if snap.ty != t {
+                            return fail("type-differs", "", format!("type reported {:?}, the shape reports {t:?}", snap.ty));
+                        }
+                        match obs::show(p) {
+                            Out::Ok(c) if c == snap.render() => {},
+                            o => return fail("prints-differently", "", format!("to_string() gave {}; accessors render as {:?}", match o { Out::Ok(c) => c, o => o.kind() }, snap.render())),
+                        }
+                    }
+                    (Some(j), None)
+                },
+                (Out::Panic(_), _) => unreachable!(),
+            }
+        },
+        None => match &out {
+            // neither conversion failure nor hook: the generic parser must have refused
+            Out::Err(e) if e.starts_with("Parse(") => (Some(j), None),
+            o => fail("result-without-hook", "", format!("no hook invocation, yet the result is {}", o.kind())),
+        },
+    }
+}
+
+fn fins_type(via_parser: bool, input: &str) -> String {
+    if via_parser {
+        type_substring(input).unwrap_or("").to_string()
+    } else {
+        "Custom".to_string()
+    }
+}
+
+fn one(ctx: &mut Ctx, cfg: &Cfg, input: &str, via_parser: bool) {
+    ctx.st.evaluations += 1;
+    ctx.st.count(if via_parser { "runs:parser" } else { "runs:builder" });
+    let (j, f) = judge(cfg, input, via_parser);
+    if let Some(j) = j {
+        if j.invoked {
+            ctx.st.nontrivial(fnv(format!("{cfg:?}{input}{via_parser}").as_bytes()));
+        }
+        if j.word.contains("Conv(err)") {
+            ctx.st.count("trace:conversion-failed");
+        }
+        if j.word.contains("Finish(err)") {
+            ctx.st.count("trace:hook-failed");
+        }
+        if via_parser && !j.word.contains("Conv") {
+            ctx.st.count("trace:conversion-not-reached");
+        }
+        if j.word.contains("Conv(ok)") && !j.word.contains("Finish") {
+            ctx.st.count("trace:hook-not-reached-after-conversion");
+        }
+        if j.value_checked {
+            ctx.st.count("result:value-matches-post-edit-seen");
+        }
+        if j.post_refused {
+            ctx.st.count("result:post-check-refused");
+        }
+        ctx.st.sample(|| json!({"member": cfg, "input": input, "entry": if via_parser { "from_str" } else { "build" }, "trace": j.word}));
+        ctx.st.set_insert("trace-words", j.word);
+    }
+    if let Some(f) = f {
+        let (kind, tag) = (f.kind.clone(), f.tag.clone());
+        let min = if via_parser {
+            shrink_str(input, &mut |c| judge(cfg, c, true).1.map_or(false, |g| g.kind == kind && g.tag == tag))
+        } else {
+            input.to_string()
+        };
+        let g = judge(cfg, &min, via_parser).1.unwrap_or(f);
+        ctx.st.violation("C14.protocol", format!("C14.protocol:{}:{}", g.kind, g.tag), g.detail, json!({"cfg": cfg, "input": min, "via_parser": via_parser}));
+    }
+}
+
+pub fn run(ctx: &mut Ctx) {
+    let cfgs = shapes::all_cfgs();
+    let (corpus, _) = gen::load_corpus();
+    // a fixed pool of token-language strings (reduced G1) shared by all members
+    let mut pool: Vec<String> = Vec::new();
+    {
+        let mut f = |_i: u64, s: &str| pool.push(s.to_string());
+        gen::for_each_lang(gen::G1_CONTEXTS, gen::SIGMA_STRUCT, 2, 0, 1, 0, &mut f);
+    }
+    let mut r = ctx.rng("c14");
+    let rounds = if ctx.quick() { 240 } else { 4000 };
+    for (i, base) in cfgs.iter().enumerate() {
+        if !ctx.mine(i as u64) {
+            continue;
+        }
+        ctx.st.count("members-exercised");
+        for round in 0..rounds {
+            let mut cfg = base.clone();
+            for k in 0..3 {
+                cfg.values[k] = if round % 2 == 0 { r.pick(U_VALUES).to_string() } else { gen::mixed_string(&mut r, 0, 8, 50) };
+            }
+            match round % 4 {
+                0 => {
+                    let t = spell::gen_tuple(&mut r, false);
+                    let mask = spell::random_mask(&mut r);
+                    let s = spell::spell(&mut r, &t, mask).assemble();
+                    one(ctx, &cfg, &s, true);
+                },
+                1 => {
+                    let s = gen::mutate(&mut r, &corpus);
+                    one(ctx, &cfg, &s, true);
+                },
+                2 => {
+                    let s = r.pick(&pool).clone();
+                    one(ctx, &cfg, &s, true);
+                },
+                _ => {
+                    let name = if r.chance(1, 8) { String::new() } else { gen::mixed_string(&mut r, 1, 8, 40) };
+                    one(ctx, &cfg, &name, false);
+                },
+            }
+        }
+    }
+    if ctx.worker == 0 {
+        ctx.st.exhaustive.push(json!({"name": "all 2 x 2^9 x 3 = 3072 members of the shape family (conversion ok/fails x hook behaviour bitmask x reported type string)", "size": 3072, "completed": true}));
+    }
+}
+
+pub fn replay(_monitor: &str, case: &Value) -> Result<Option<Fail>, String> {
+    let cfg: Cfg = serde_json::from_value(case.get("cfg").cloned().unwrap_or(Value::Null)).map_err(|e| e.to_string())?;
+    let via = case.get("via_parser").and_then(|v| v.as_bool()).unwrap_or(true);
+    Ok(judge(&cfg, str_field(case, "input")?, via).1)
 }
